@@ -14,7 +14,7 @@ PY_BUILTINS = {"len", "int", "float", "bool", "str", "bytes", "abs", "min", "max
                "enumerate", "zip", "sorted", "list", "tuple", "dict", "set", "sum", "any", "all", "getattr",
                "hasattr", "print", "repr", "divmod", "pow", "hash", "id", "type", "object", "reversed", "iter",
                "next", "callable", "bytearray", "frozenset", "super", "ord", "chr", "hex", "format", "map", "filter"}
-SPEC_FORMS = {"old", "implies", "forall", "exists", "raised", "iff", "ite", "uf", "fresh_int", "fresh_real",
+SPEC_FORMS = {"ghost", "old", "implies", "forall", "exists", "raised", "iff", "ite", "uf", "fresh_int", "fresh_real",
               "fresh_bool"}
 EXTERNAL_MODULES = {"math", "time", "threading", "random", "logging", "datetime", "json", "socket", "struct",
                     "select", "copy", "dataclasses", "typing", "enum", "collections", "hashlib", "os", "sys",
@@ -87,7 +87,9 @@ class ExprMixin:
         if r[0] == "module":
             return ModuleV(r[1])
         if r[0] == "external":
-            return ModuleV(r[1], external=True)
+            if r[1] in self.external_values:
+                return self.external_values[r[1]]
+            return BuiltinV("ext:" + r[1])
         if r[0] == "const":
             return self.module_const(r[1], name, r[2])
         raise Unsupported(f"name resolution {r[0]}")
@@ -727,7 +729,11 @@ class ExprMixin:
             yield st, self.resolved_value(st, r, name)
             return
         if isinstance(o, BuiltinV):
-            yield st, BuiltinV(o.name + "." + name)
+            full = o.name + "." + name
+            if full.startswith("ext:") and full[4:] in self.external_values:
+                yield st, self.external_values[full[4:]]
+                return
+            yield st, BuiltinV(full)
             return
         if isinstance(o, ExcV):
             if name == "args":
